@@ -191,6 +191,59 @@ M("M_C08_g", ["C08"], "cotengra/scoring.py",
   "        ensure_basic_quantities_are_computed(trial)\n        tree = trial[\"tree\"]\n        return math.log2(tree.combo_cost(factor=self.factor, combine=max))",
   "        tree = trial[\"tree\"]\n        return math.log2(tree.combo_cost(factor=self.factor, combine=max))",
   "revert of the limit-objective fix", ["tests/test_optimizers.py"])
+# widened C08 (reading the record back, second search, compressed optimizer, objective instances)
+M("M_C08_w1", ["C08"], "cotengra/hyperoptimizers/hyper.py",
+  "                self.method_choices,\n                self.costs_size,\n                self.costs_flops,\n                self.costs_write,\n                self.param_choices,",
+  "                self.method_choices,\n                self.costs_flops,\n                self.costs_size,\n                self.costs_write,\n                self.param_choices,",
+  "get_trials zips the flops column where the size column is documented (R1 / R3)", ["tests/test_optimizers.py"])
+M("M_C08_w2", ["C08"], "cotengra/hyperoptimizers/hyper.py",
+  "        if sort == \"flops\":\n            trials.sort(\n                key=lambda t: log2(t[1]) / 1e3 + log2(t[2]) + log2(t[3]) / 1e3\n            )",
+  "        if sort == \"flops\":\n            order = sorted(range(len(trials)), key=lambda i: self.costs_flops[i])\n            trials = [trials[i][:4] + (self.param_choices[j],) for j, i in enumerate(order)]",
+  "get_trials(sort='flops') rebuilt from an index order but takes the params at the output position (R2)", ["tests/test_optimizers.py"])
+M("M_C08_w3", ["C08"], "cotengra/hyperoptimizers/hyper.py",
+  "        for choice, size, flops, write, params in self.get_trials(sort):",
+  "        for choice, size, write, flops, params in self.get_trials(sort):",
+  "print_trials unpacks write / flops in the wrong order (R3)", ["tests/test_optimizers.py"])
+M("M_C08_w4", ["C08"], "cotengra/hyperoptimizers/hyper.py",
+  "                \"score\": self.scores,\n            }\n        ).sort_values(by=\"method\")",
+  "                \"score\": sorted(self.scores),\n            }\n        ).sort_values(by=\"method\")",
+  "to_df pre-sorts the score column: scores no longer belong to their trials (R4)", ["tests/test_optimizers.py"])
+M("M_C08_w4b", ["C08"], "cotengra/hyperoptimizers/hyper.py",
+  "                **self.param_choices[i],\n                \"flops\": log10(self.costs_flops[i]),",
+  "                **self.param_choices[i - 1],\n                \"flops\": log10(self.costs_flops[i]),",
+  "to_dfs_parametrized pairs trial i's figures with trial i-1's parameters (R4)", ["tests/test_optimizers.py"])
+M("M_C08_w5", ["C08"], "cotengra/hyperoptimizers/hyper.py",
+  "        return tuple(self.path)\n",
+  "        return tuple(self.tree.get_ssa_path())\n",
+  "__call__ (opt_einsum interface) returns the ssa path where a linear path is expected (R5)", ["tests/test_optimizers.py"])
+M("M_C08_w6", ["C08"], "cotengra/scoring.py",
+  "        return math.log2(trial[\"flops\"] + self.factor * trial[\"write\"])",
+  "        return math.log2(trial[\"flops\"] + DEFAULT_COMBO_FACTOR * trial[\"write\"])",
+  "ComboObjective ignores its factor parameter: only visible with an Objective instance / non-default factor (S1)", ["tests/test_optimizers.py"])
+M("M_C08_w7", ["C08"], "cotengra/hyperoptimizers/hyper.py",
+  "        score_smudge=1e-6,\n",
+  "        score_smudge=1e-2,\n",
+  "score smudge default four orders too large: the trial with the minimum recorded score is no longer the best tree (S2 / S1)", ["tests/test_optimizers.py"])
+M("M_C08_w8", ["C08"], "cotengra/hyperoptimizers/hyper.py",
+  "        repeats = range(r_start, r_stop)\n",
+  "        repeats = range(self._repeats_start, r_stop)\n",
+  "a second search on the same optimizer runs max_repeats + (trials so far) trials (P1 / H1 per search)", ["tests/test_optimizers.py"])
+M("M_C08_w9", ["C08"], "cotengra/hyperoptimizers/hyper.py",
+  "        self._parallel = parallel\n        self._pool = parse_parallel_arg(parallel)\n",
+  "        self._parallel = parallel\n        if getattr(self, \"_pool\", None) is None:\n            self._pool = parse_parallel_arg(parallel)\n",
+  "the parallel setter keeps a pool it already has: switching opt.parallel has no effect (P1_pool_switch)", ["tests/test_optimizers.py"])
+M("M_C08_w10", ["C08"], "cotengra/hyperoptimizers/hyper.py",
+  "            minimize += f\"-{chi}\"\n",
+  "            minimize = f\"{minimize}\"\n",
+  "the compressed optimizers drop the user's chi from the objective: figures / scores are recorded for chi='auto' (C1)", ["tests/test_optimizers.py"], all=True)
+M("M_C08_w11", ["C08"], "cotengra/scoring.py",
+  "            chi = max(tree.size_dict.values()) ** 2\n",
+  "            chi = max(tree.size_dict.values()) * 2\n",
+  "compressed objectives with chi=None use twice (not the square of) the largest dimension (C1)", ["tests/test_optimizers.py"])
+M("M_C08_w12", ["C08"], "cotengra/hyperoptimizers/hyper.py",
+  "            tree.subtree_reconfigure_(**self.opts)\n\n        tree.already_optimized.clear()\n        trial.update(tree.contract_stats())",
+  "            tree.subtree_reconfigure_(**self.opts)\n            trial.update(tree.contract_stats())\n\n        tree.already_optimized.clear()",
+  "ReconfTrialFn records the new figures only in the non-forested branch (cfg:forest -> H4)", ["tests/test_optimizers.py"])
 
 # ------------------------------- C13 --------------------------------------
 M("M_C13_a", ["C13"], "cotengra/interface.py",
@@ -217,6 +270,115 @@ M("M_C13_f", ["C13"], "cotengra/interface.py",
   "        except TypeError:\n            # some part of the contraction specification is unhashable\n            key = None",
   "        except ZeroDivisionError:\n            key = None",
   "revert of the unhashable-key fallback", ["tests/test_interface.py"])
+
+# C13, expressions with constants / user presets (widened workload).  The unchanged library rebuilds an expression with
+# constants on every call; the first three edits add the cache a maintainer might add - with an incomplete key.
+_C13_CONST_OLD = "        # handle constants specially with autoray\n        return _array_contract_expression_with_constants(\n"
+
+
+def _c13_const_cache(keypart):
+    return (
+        "        # handle constants specially with autoray\n"
+        "        if cache and can_hash_optimize(optimize.__class__):\n"
+        "            ckey = (\"constants\", hash_contraction(inputs, output, size_dict, optimize), " + keypart + ", tuple(sorted(kwargs.items(), key=repr)))\n"
+        "            try:\n"
+        "                return _CONTRACT_EXPR_CACHE[ckey]\n"
+        "            except KeyError:\n"
+        "                pass\n"
+        "            expr = _CONTRACT_EXPR_CACHE[ckey] = _array_contract_expression_with_constants(\n"
+        "                inputs, output, size_dict, constants, optimize=optimize, cache=cache, **kwargs\n"
+        "            )\n"
+        "            return expr\n"
+        "        return _array_contract_expression_with_constants(\n"
+    )
+
+
+M("M_C13_x1", ["C13"], "cotengra/interface.py", _C13_CONST_OLD, _c13_const_cache("tuple(sorted(constants))"),
+  "expressions with constants are cached on the POSITIONS of the constants: other constant arrays in the same positions get the first ones' folded values (stale cache)", ["tests/test_interface.py"])
+M("M_C13_x2", ["C13"], "cotengra/interface.py", _C13_CONST_OLD, _c13_const_cache("tuple((i, id(constants[i])) for i in sorted(constants))"),
+  "expressions with constants are cached on the positions and the id() of the constant arrays: a new array at the address of a freed one hits the stale entry", ["tests/test_interface.py"])
+M("M_C13_x4", ["C13"], "cotengra/interface.py", _C13_CONST_OLD, _c13_const_cache("len(constants)"),
+  "expressions with constants are cached on the NUMBER of constants: which operands are constant is not part of the key", ["tests/test_interface.py"])
+M("M_C13_x3", ["C13"], "cotengra/interface.py",
+  "            key = hash_contraction(inputs, output, size_dict, optimize)\n        except TypeError:\n            # some part of the contraction specification is unhashable",
+  "            key = hash_contraction(inputs, output, size_dict, optimize.__class__.__name__)\n        except TypeError:\n            # some part of the contraction specification is unhashable",
+  "path cache keyed on the KIND of optimize (str / tuple / list), not its value: every preset name shares one cached path per contraction", ["tests/test_interface.py"])
+M("M_C13_x5", ["C13"], "cotengra/interface.py",
+  "            lazy_variables_and_constants.append(constant)\n",
+  "            lazy_variables_and_constants.insert(0, constant)\n",
+  "expressions with constants: the constants are gathered in front of the variables (same in both cache modes: only the dense reference sees it)", ["tests/test_interface.py"])
+
+M("M_C13_x6", ["C13"], "cotengra/interface.py",
+  "    lz_output = full_expr(*lazy_variables_and_constants)\n",
+  "    if lazy_variables or not cache:\n"
+  "        lz_output = full_expr(*lazy_variables_and_constants)\n"
+  "    else:\n"
+  "        # every input is constant: remember the performed contraction\n"
+  "        memo = globals().setdefault(\"_ALL_CONSTANT_RESULTS\", {})\n"
+  "        mkey = (tuple(map(tuple, inputs)), tuple(output), tuple(size_dict.items()), via is None)\n"
+  "        if mkey not in memo:\n"
+  "            memo[mkey] = full_expr(*lazy_variables_and_constants)\n"
+  "        lz_output = memo[mkey]\n",
+  "all operands constant: the performed contraction is remembered per contraction (cache=True only), other constant arrays get the first result (stale cache)", ["tests/test_interface.py"])
+
+M("M_C08_r1", ["C08"], "cotengra/hyperoptimizers/hyper.py",
+  "            # a custom callable objective need not have filled these in\n            ensure_basic_quantities_are_computed(trial)\n",
+  "",
+  "revert of cc45b0a: a plain callable minimize leaves trial['flops'] unset -> search raises KeyError (cfg:plain_callable)", ["tests/test_optimizers.py"])
+
+# ------------------------------- C14 (widened: update_from_tree / cleanup / directory=True) ----------
+M("M_C14_r1", ["C14"], "cotengra/pathfinders/path_basic.py",
+  "        # entries added with ``update_from_tree`` can be sliced\n        for ix in con[\"sliced_inds\"]:\n            tree.remove_ind_(ix)\n\n",
+  "",
+  "revert of 2225b09: the random-greedy reusable optimizer ignores the stored sliced indices on a hit (update_sliced, rg)", ["tests/test_paths_basic.py"])
+M("M_C14_r2", ["C14"], "cotengra/utils.py",
+  "                if p.is_dir():\n                    # entries are split into sub-directories\n                    for q in p.glob(\"*\"):\n                        q.unlink()\n                    p.rmdir()\n                else:\n                    p.unlink()\n",
+  "                p.unlink()\n",
+  "revert of dd5f806: DiskDict.clear / cleanup() raises IsADirectoryError on a split directory and leaves the files (cleanup_ops)", ["tests/test_utils.py"])
+M("M_C14_w1", ["C14"], "cotengra/reusable.py",
+  "        elif overwrite:\n            if overwrite == \"improved\":",
+  "        elif overwrite is True:\n            if overwrite == \"improved\":",
+  "update_from_tree(overwrite='improved') never overwrites (update_stored_as_supplied)", ["tests/test_optimizers.py"])
+M("M_C14_w2", ["C14"], "cotengra/reusable.py",
+  "                if new_con[\"score\"] < old_con[\"score\"]:\n                    # overwrite only if we have a better score",
+  "                if new_con[\"score\"] != old_con[\"score\"]:\n                    # overwrite only if we have a better score",
+  "update_from_tree(overwrite='improved') overwrites with any different score, also a worse one (update_kept_old)", ["tests/test_optimizers.py"])
+M("M_C14_w3", ["C14"], "cotengra/reusable.py",
+  "        h, missing = self.hash_query(tree.inputs, tree.output, tree.size_dict)\n",
+  "        h = hash_contraction(\n            tree.inputs, tree.output, tree.size_dict, self._hash_method\n        )\n        missing = h not in self._cache\n",
+  "update_from_tree computes the key itself and forgets directory_split: the entry lands where no query looks (update_ops / update_then_hit)", ["tests/test_optimizers.py"])
+M("M_C14_w4", ["C14"], "cotengra/reusable.py",
+  "        if missing:\n            # write to the cache\n            self._cache[h] = new_con\n        elif overwrite:",
+  "        if missing:\n            # write to the cache\n            self._cache._mem_cache[h] = new_con\n        elif overwrite:",
+  "update_from_tree writes a NEW entry to the memory layer only: a fresh object / process on the directory never sees it (update_fresh_object)", ["tests/test_optimizers.py"])
+M("M_C14_w5", ["C14"], "cotengra/reusable.py",
+  "            \"score\": tree.get_score(),\n            \"sliced_inds\": tuple(tree.sliced_inds),\n        }\n\n        if missing:",
+  "            \"score\": tree.get_score(),\n            \"sliced_inds\": (),\n        }\n\n        if missing:",
+  "update_from_tree drops the supplied tree's sliced indices (update_sliced input class)", ["tests/test_optimizers.py"])
+M("M_C14_w6", ["C14"], "cotengra/reusable.py",
+  "        h, missing = self.hash_query(tree.inputs, tree.output, tree.size_dict)\n\n        new_con = {",
+  "        if self.cache_only:\n            # read-only\n            return\n\n        h, missing = self.hash_query(tree.inputs, tree.output, tree.size_dict)\n\n        new_con = {",
+  "update_from_tree silently does nothing on a cache_only optimizer (update_cache_only)", ["tests/test_optimizers.py"])
+M("M_C14_w8", ["C14"], "cotengra/utils.py",
+  "    def clear(self):\n        self._mem_cache.clear()\n",
+  "    def clear(self):\n",
+  "DiskDict.clear (cleanup) deletes the files but keeps the memory copies: the object answers what no other object / process can see (post_cleanup_queries -> reload)", ["tests/test_utils.py"])
+M("M_C14_w9", ["C14"], "cotengra/hyperoptimizers/hyper.py",
+  "            (\"methods\", None),\n            (\"minimize\", \"flops\"),\n",
+  "            (\"methods\", None),\n",
+  "minimize is no longer a path-relevant option: directory=True optimizers for different objectives share one cache (auto_dir_other_options_separate)", ["tests/test_optimizers.py"])
+M("M_C14_w10", ["C14"], "cotengra/pathfinders/path_basic.py",
+  "            (\"max_repeats\", 32),\n            (\"costmod\", (0.1, 4.0)),\n            (\"temperature\", (0.001, 1.0)),",
+  "            (\"max_repeats\", 32),\n            (\"costmod\", (0.1, 4.0)),",
+  "ReusableRandomGreedyOptimizer: temperature dropped from the path-relevant options (auto_dir_other_options_separate, rg)", ["tests/test_paths_basic.py"])
+M("M_C14_w11", ["C14"], "cotengra/reusable.py",
+  "        return tuple(sorted((k, make_hashable(v)) for k, v in x.items()))",
+  "        return tuple((k, make_hashable(v)) for k, v in x.items())",
+  "make_hashable keeps a dict option's insertion order: equal options hash to different auto directories (auto_dir_same_options_share)", ["tests/test_optimizers.py"])
+M("M_C14_w12", ["C14"], "cotengra/reusable.py",
+  "        if missing:\n            # write to the cache\n            self._cache[h] = new_con\n        elif overwrite:",
+  "        self.overwrite = overwrite\n        if missing:\n            # write to the cache\n            self._cache[h] = new_con\n        elif overwrite:",
+  "update_from_tree stores its overwrite argument on the optimizer: later queries search again (update_then_hit)", ["tests/test_optimizers.py"])
 
 # ------------------------------- C15 --------------------------------------
 M("M_C15_a", ["C15"], "cotengra/utils.py",
